@@ -90,7 +90,10 @@ TAcct ==
   /\ Ev("acct") /\ AcctOk(Rec[l]) /\ UNCHANGED kvVars
   /\ IF "alloc" \in DOMAIN Rec[l]
      THEN /\ (clean /\ lastAlloc # <<>>) =>
-                Check("AbortLeavesNoTrace", SetOf(Rec[l].alloc) = lastAlloc[1], Rec[l])
+                Check("AbortLeavesNoTrace",
+                      IF "needs_repair" \in DOMAIN Rec[l] /\ Rec[l].needs_repair
+                      THEN lastAlloc[1] \subseteq SetOf(Rec[l].alloc)        \* (leak of a drop during unwinding, until reopen)
+                      ELSE SetOf(Rec[l].alloc) = lastAlloc[1], Rec[l])
           /\ lastAlloc' = <<SetOf(Rec[l].alloc)>> /\ clean' = TRUE
      ELSE lastAlloc' = <<>> /\ clean' = FALSE
   /\ UNCHANGED armed
